@@ -2,7 +2,7 @@ ENGINES = [
     {"name": "csym", "path": "vt/csym.py", "serves_properties": ["C01", "C02", "C03", "C13", "C18"],
      "kind_free_text": "symbolic interpreter of traits/ctraits.c over clang's JSON AST (regenerated from the current source on every run), "
                        "CPython API contracts in vt/capi.py, shared path condition with symx; memory-safety assertions on every path"},
-    {"name": "symx", "path": "vt/symx.py", "serves_properties": ["C01", "C03", "C04", "C05", "C06", "C07"],
+    {"name": "symx", "path": "vt/symx.py", "serves_properties": ["C01", "C03", "C04", "C05", "C06", "C07", "C13", "C20"],
      "kind_free_text": "symbolic execution of the real Python code on z3-backed proxies (DFS over decision prefixes by re-execution), "
                        "environment models for built-ins (vt/envmodels.py), concrete replay of every counterexample and one witness per path"},
 ]
@@ -112,4 +112,16 @@ CHECKS["C13"] = dict(
     note="Part (b) has concrete names: the solver contributes path feasibility only there (exhaustive bounded enumeration, labelled so in the "
          "evidence). Assumes names without statically named _<name>_changed handlers. Fixture classes are created per run because resolved "
          "wildcard names are cached per class.")
+CHECKS["C20"] = dict(
+    text="Bounded model checking by symbolic execution of the real sync_trait / _sync_trait_modified / _sync_trait_items_modified on real "
+         "objects: every list mutator with unbounded symbolic index / slice fields / factor on either side of a mutual, one-way or aliased "
+         "link (list length <=3 quick, 4 thorough): after the step both lists are equal (mutual) or the reverse direction is inert "
+         "(one-way), each side's handlers fire at most once, nothing reaches the notification exception handler. The write-back slice on "
+         "the receiving side carries the symbolic normalised index, whose feasible values are enumerated exhaustively. Scalar histories "
+         "(k=2/3: assign either side, remove the link from either side in one or both directions, collect a partner, re-assign the same "
+         "value; 1-2 partners) are bounded choice explorations.",
+    design_ref="DESIGN.md section 4 C20", technique="symbolic execution of the real Python code with z3 (symx), counterexamples replayed",
+    note="Trusted: z3, ListModel/MSlice environment models (self-tested), compiled Int validator and trait_items_event run concretely. "
+         "Scalar histories: solver contributes choice feasibility only. Outside: more than two partners, chains of synchronised objects, "
+         "non-list containers, threads.")
 NOT_APPLICABLE = {p: NOT_BUILT for p in ["C%02d" % i for i in range(1, 21)]}
